@@ -23,6 +23,7 @@ func checkC06(c *Ctx, r *Report) {
 	c06TTLUnits(c, r)
 	c06GenerateRange(c, r)
 	c06IncludeFile(c, r)
+	c06GenerateEscape(c, r)
 }
 
 // mustPassExit is mustPass restricted to the exits accepted by isExit.
@@ -439,12 +440,39 @@ func c06R3(c *Ctx, r *Report) {
 			}
 		}
 	}
+	tokenKindFact := func(b *ssa.BasicBlock) bool {
+		for _, fc := range factsAt(nx, b) {
+			if anyIn(sliceOf(fc.Atom), readsField("lex", "value")) {
+				return true
+			}
+		}
+		return false
+	}
+	var lineStartProblems []string
 	for _, st := range storesToField(nx, "RR_Header", "Class") {
 		if k, ok := constIntOf(st.Val); ok && k == classIN && classIN == 1 {
 			okClass = true
+			// the default is set whatever the first token of the line is (owner, blank, class, type ...)
+			if tokenKindFact(st.Block()) {
+				okClass = false
+				lineStartProblems = append(lineStartProblems, fmt.Sprintf("%s: class IN is only set for some kinds of first token: a line that omits the owner keeps the class of the previous record", c.pos(st.Pos())))
+			}
 		}
 	}
-	r.check(okTtl && okClass, "C06.R3.ttl-inheritance", "Next:line-start", c.pos(nx.Pos()), "h.Ttl = defttl.ttl (if any); h.Class = IN", "a line does not start from the remembered TTL (%v) and class IN (%v)", okTtl, okClass)
+	for _, st := range storesToField(nx, "RR_Header", "Ttl") {
+		if anyIn(sliceOf(st.Val), readsField("ttlState", "ttl")) && tokenKindFact(st.Block()) {
+			okTtl = false
+			lineStartProblems = append(lineStartProblems, fmt.Sprintf("%s: the remembered TTL is only restored for some kinds of first token", c.pos(st.Pos())))
+		}
+	}
+	if len(lineStartProblems) > 0 {
+		r.fail("C06.R3.ttl-inheritance", "Next:line-start", c.pos(nx.Pos()), "%s", strings.Join(lineStartProblems, "; "))
+	} else {
+		r.check(okTtl && okClass, "C06.R3.ttl-inheritance", "Next:line-start", c.pos(nx.Pos()), "h.Ttl = defttl.ttl (if any); h.Class = IN", "a line does not start from the remembered TTL (%v) and class IN (%v)", okTtl, okClass)
+	}
+	if false {
+		r.check(okTtl && okClass, "C06.R3.ttl-inheritance", "Next:line-start", c.pos(nx.Pos()), "h.Ttl = defttl.ttl (if any); h.Class = IN", "a line does not start from the remembered TTL (%v) and class IN (%v)", okTtl, okClass)
+	}
 }
 
 func c06R4(c *Ctx, r *Report) {
